@@ -499,4 +499,84 @@ def varBlocks : List Nat → List Rat → List (List Rat × Nat)
   | [], _ => []
   | s :: sz, v => (v.take (s * s), s) :: varBlocks sz (v.drop (s * s))
 
+/-! ## csc matrices: the column-wise reading
+
+scipy's `csc_matrix` of shape (nrows, ncols) stores, for every COLUMN `j`, the entries
+(row index, value) at the positions `indptr[j] ≤ k < indptr[j+1]`.  `Csc.toDense` is that semantics,
+written down directly.  `Csc.read` is the csr matrix with the same three arrays (the transposed
+reading); the code runs the same array manipulations on both formats, so every csc function below
+is the csr function on the reading — what differs is only how the shape is assembled, exactly as
+in the format branches of the code. -/
+
+structure Csc where
+  nrows : Nat
+  ncols : Nat
+  indptr : List Nat
+  indices : List Nat
+  data : List Rat
+deriving DecidableEq, Repr
+
+/-- the csr matrix with the same arrays: shape (ncols, nrows) -/
+def Csc.read (C : Csc) : Csr := ⟨C.ncols, C.nrows, C.indptr, C.indices, C.data⟩
+
+/-- the csc matrix with the same arrays as a csr matrix: shape (ncols, nrows) -/
+def Csc.ofRead (R : Csr) : Csc := ⟨R.ncols, R.nrows, R.indptr, R.indices, R.data⟩
+
+def Csc.WF (C : Csc) : Prop := C.read.WF
+
+instance (C : Csc) : Decidable C.WF := inferInstanceAs (Decidable C.read.WF)
+
+/-- stored entries (row, value) of column `j` -/
+def Csc.colEntries (C : Csc) (j : Nat) : List (Nat × Rat) :=
+  ((C.indices.zip C.data).drop (C.indptr.getD j 0)).take (C.indptr.getD (j + 1) 0 - C.indptr.getD j 0)
+
+/-- THE semantics of a csc matrix: `C.toarray()`, entry (i, j) = sum of the values stored in column
+    `j` with row index `i`. -/
+def Csc.toDense (C : Csc) : List (List Rat) :=
+  (List.range C.nrows).map (fun i => (List.range C.ncols).map (fun j => entrySum i (C.colEntries j)))
+
+/-- dense transpose of a matrix with `c` columns (the column count is explicit so that matrices
+    without rows keep their shape) -/
+def transposeD (M : List (List Rat)) (c : Nat) : List (List Rat) :=
+  (List.range c).map (fun j => M.map (fun row => row.getD j 0))
+
+/-- `zero_columns(A, cols)` -/
+def zeroColumns (C : Csc) (cols : List Nat) : Csc := Csc.ofRead (zeroLines C.read cols)
+
+/-- `slice_sparse_matrix(A, ind)` for csc `A`: `A[:, ind]` -/
+def sliceCols (C : Csc) (ind : List Nat) : Csc := Csc.ofRead (sliceLines C.read ind)
+
+/-- `merge_matrices(A, B, lines, "csc")`: `A[:, lines] = B` -/
+def mergeCols (A B : Csc) (lines : List Nat) : Csc := Csc.ofRead (mergeLines A.read B.read lines)
+
+/-- `stack_mat(A, B)` for csc: `hstack` -/
+def stackMatCsc (A B : Csc) : Csc := Csc.ofRead (stackMat A.read B.read)
+
+/-- `stack_diag(A, B)` for csc -/
+def stackDiagCsc (A B : Csc) : Csc := Csc.ofRead (stackDiag A.read B.read)
+
+/-- `csc_matrix_from_sparse_blocks(blocks)` -/
+def cscFromSparseBlocks (bs : List Csc) : Except String Csc :=
+  (fromSparseBlocks (bs.map Csc.read)).map Csc.ofRead
+
+/-- `csc_matrix_from_dense_blocks(data, block_size, num_blocks)` -/
+def cscFromDenseBlocks (data : List Rat) (bs nb : Nat) : Except String Csc :=
+  (fromDenseBlocks data bs nb).map Csc.ofRead
+
+/-! ## boolean masks, sparse_kronecker_product, optimized_compressed_storage -/
+
+/-- `sparse_kronecker_product(A, nd)`: `A` itself for `nd = 1`, else `kron(A, eye(nd))` -/
+def sparseKron (A : Csr) (nd : Nat) : Csr := if nd = 1 then A else kronI A nd
+
+/-- the compressed matrix that stores every entry of a dense matrix with `c` columns (reference for
+    scipy's format conversions, which are compared on dense output only) -/
+def denseToCsr (M : List (List Rat)) (c : Nat) : Csr :=
+  ofRows c (M.map (fun row => (List.range c).zip row))
+
+/-- `optimized_compressed_storage(A)`: csc if there are more rows than columns, else csr; the
+    conversion itself is scipy's (`tocsc`/`tocsr`) and is represented by `denseToCsr`. -/
+def optimizedStorage (A : Csr) : Csr ⊕ Csc :=
+  if optimizedIsCsc A.nrows A.ncols then .inr (Csc.ofRead (denseToCsr (transposeD A.toDense A.ncols) A.nrows))
+  else .inl (denseToCsr A.toDense A.ncols)
+
 end PorepyVerif.C35
